@@ -29,7 +29,7 @@ func execHeap(in val.V) val.V {
 	return guard(func() val.V {
 		fam := []*sse.Message{{}}
 		ids := map[uintptr]int{}
-		fin, _ := sse.NewFiniteReplayer(4, true)
+		fin, _ := sse.NewFiniteReplayer(2, true) // the smallest ring: it wraps at every other Put
 		vr, _ := sse.NewValidReplayer(time.Hour, true)
 		finManual, _ := sse.NewFiniteReplayer(4, false)
 		vrManual, _ := sse.NewValidReplayer(time.Hour, false)
@@ -64,6 +64,8 @@ func execHeap(in val.V) val.V {
 				case 5:
 					// reset() is the first step of UnmarshalText; an empty event is ErrUnexpectedEOF after the reset
 					_ = m.UnmarshalText(nil)
+				case 7:
+					_ = m.UnmarshalText([]byte("data: " + op.At(2).Str() + "\n\n"))
 				default:
 					var stored *sse.Message
 					var err error
@@ -110,11 +112,13 @@ func withHints(ops []val.V) val.V {
 	obs := execHeap(val.List(ops))
 	out := make([]val.V, len(ops))
 	for i, op := range ops {
-		if op.At(0).Num() == 0 && obs.K == '(' && i < obs.Len() {
+		if k := op.At(0).Num(); (k == 0 || k == 7) && obs.K == '(' && i < obs.Len() {
 			t := op.At(1).Int()
 			c := obs.At(i).At(t).At(2)
-			if c.K == 'n' {
+			if c.K == 'n' && k == 0 {
 				op = val.L(op.At(0), op.At(1), op.At(2), op.At(3), c)
+			} else if c.K == 'n' {
+				op = val.L(op.At(0), op.At(1), op.At(2), c)
 			}
 		}
 		out[i] = op
@@ -157,6 +161,31 @@ func genHeap(c *Ctx) {
 				}
 			}
 			c.Count("exhaustive-publish-k-times")
+			c.Emit(withHints(ops))
+		}
+	}
+	// exhaustive: one message published k times through ONE replayer (the ring wraps), re-examining all earlier publications
+	for kind := 0; kind < 2; kind++ {
+		for k := 1; k <= 9; k++ {
+			ops := []val.V{app(0, 0)}
+			for i := 0; i < k; i++ {
+				ops = append(ops, val.L(val.N(6), val.N(0), val.Int(kind)))
+			}
+			ops = append(ops, app(0, 1))
+			c.Count("exhaustive-publish-k-times-one-replayer")
+			c.Emit(withHints(ops))
+		}
+	}
+	// exhaustive: UnmarshalText into a message that has clones / stored copies, at every template size
+	for k := 1; k <= 6; k++ {
+		for target := 0; target < 3; target++ {
+			ops := []val.V{}
+			for i := 0; i < k; i++ {
+				ops = append(ops, app(0, i))
+			}
+			ops = append(ops, val.L(val.N(4), val.N(0)), val.L(val.N(6), val.N(0), val.N(1)),
+				val.L(val.N(7), val.Int(target), val.S("fresh"), val.N(0)), app(target, 5), val.L(val.N(7), val.Int(target), val.S("again"), val.N(0)))
+			c.Count("exhaustive-unmarshal-into-shared")
 			c.Emit(withHints(ops))
 		}
 	}
@@ -208,9 +237,12 @@ func genHeap(c *Ctx) {
 					size++
 					c.Count("op:clone")
 				}
-			case x < 84:
+			case x < 82:
 				ops = append(ops, val.L(val.N(5), val.Int(t)))
 				c.Count("op:reset")
+			case x < 86:
+				ops = append(ops, val.L(val.N(7), val.Int(t), line(c.R.Intn(26)), val.N(0)))
+				c.Count("op:unmarshal")
 			default:
 				// the family grows only if the Put is accepted (the target has no ID): keep targets conservative
 				ops = append(ops, val.L(val.N(6), val.Int(t), val.Int(c.R.Intn(4))))
